@@ -154,3 +154,35 @@ func VerifC10_Preload() {
 	verifSparseRead(h2, blob, 0, int(length), "after restart")
 	vCover("restarted")
 }
+
+// VerifC10_EmptyObject: the sparse file over a real local store opened without verification
+// whose object for a chunk is transiently empty (a zero-length file: interrupted copy, full
+// disk): the read fails or returns the blob's bytes - an empty object is not "zero bytes of
+// data" - and once the store is healthy again the same range is served correctly.
+func VerifC10_EmptyObject() {
+	unc := vChoose("uncompressed", 2) == 1
+	base := vTempDir()
+	ls, _ := NewLocalStore(base, StoreOptions{Uncompressed: unc, SkipVerify: true})
+	blob := []byte{0x61, byte(0x62 + vChoose("second-byte", 2))} // concrete: chunk IDs are file names here
+	idx := Index{Index: FormatIndex{FeatureFlags: CaFormatSHA512256, ChunkSizeMin: 1, ChunkSizeAvg: 1, ChunkSizeMax: 1}}
+	var paths []string
+	var objects [][]byte
+	for c := 0; c < 2; c++ {
+		ch := NewChunk(blob[c : c+1])
+		vAssert(ls.StoreChunk(ch) == nil, "store setup")
+		idx.Chunks = append(idx.Chunks, IndexChunk{ID: ch.ID(), Start: uint64(c), Size: 1})
+		_, p := ls.nameFromID(ch.ID())
+		b, _ := os.ReadFile(p)
+		paths, objects = append(paths, p), append(objects, b)
+	}
+	victim := vChoose("emptied-chunk", 2)
+	os.WriteFile(paths[victim], nil, 0644)
+	dir := vTempDir()
+	sf, err := NewSparseFile(dir+"/cache", idx, ls, SparseFileOptions{})
+	vAssert(err == nil, "NewSparseFile failed")
+	h, _ := sf.Open()
+	verifSparseRead(h, blob, 0, 2, "read while a chunk object is empty")
+	os.WriteFile(paths[victim], objects[victim], 0644) // the store recovers
+	verifSparseRead(h, blob, 0, 2, "read after the store recovered")
+	vCover("done")
+}
